@@ -3,20 +3,20 @@
 import glob, json, os, shutil, sys
 sid = sys.argv[1]
 checks = sys.argv[2].split(",")
-src = "/tmp/seed2/%s/OUT" % sid
-nid = sid + "b"
+src = "/tmp/seed%s/%s/OUT" % (os.environ.get("SEED_ROUND", "2"), sid)
+nid = sid + {"2": "b", "3": "c"}[os.environ.get("SEED_ROUND", "2")]
 dst = "/verif/seeded/%s" % nid
 os.makedirs(dst, exist_ok=True)
 for f in glob.glob(src + "/*"):
     if f.endswith((".diff", ".rs", ".md")):
         shutil.copy(f, dst)
 m = json.load(open(src + "/meta.json"))
-m["origin"] = ("independent sub-agent (second round), given only the property text, a hint which files to look at, and a scratch "
+m["origin"] = ("independent sub-agent (later round), given only the property text, a hint which files to look at, and a scratch "
                "worktree of /repo at 1b3edbd")
 m["confirmed_by_me"] = {"scratch_worktree": "/tmp/mut (git worktree of /repo)", "compiles": True,
                         "baseline_stable_tests_passing_with_patch": "69/69 (selftest/verify_seed.py, pinned nextest command)",
                         "demo_without_change": "passes", "demo_with_change": "fails",
-                        "log": open("/tmp/seed2/logs/%s.log" % sid).read()[-1500:]}
+                        "log": open("/tmp/seed%s/logs/%s.log" % (os.environ.get("SEED_ROUND", "2"), sid)).read()[-1500:]}
 m["checks_run"] = []
 json.dump(m, open(dst + "/meta.json", "w"), indent=1)
 shutil.copy(src + "/patch.diff", "/verif/selftest/seeds_flat/%s_seed.diff" % nid)
